@@ -119,6 +119,17 @@ TABLE = [
      'pairs, indel pair) x NlaIII/CHIC TAPS molecules: calls, XM strings and MC/uC/sZ/sz/sX/sx/sH/sh totals are compared with an independent caller.',
      'One fragment per molecule (voting belongs to C13); options inside methylation_consensus_kwargs are not explored; a lower-case call on a '
      'non-conversion substitution is accepted.'),
+    ('C05',
+     'bounded-exhaustive enumeration of contig layouts through the real job builder (stubbed contig listing, probe instead of task generation) and of BAM layouts x method x --no_rejects x single/--multiprocess through the real command-line entry point with a scheduler-owned Pool, every completion order of the jobs; multiset-conservation oracle',
+     '(a) every layout word over small/large contigs with reads of length 0..7 (thorough 0..12), with/without the unmapped bin: each contig with '
+     'reads in exactly one job, the unmapped bin once. (b) every header layout of <=3 (thorough <=4) contigs (small/large, with/without reads) '
+     'with/without unmapped pairs, holding proper, duplicate, reverse, no-motif, half-mapped, split-contig and orphan fragments; methods '
+     'nla/chic/qflag; --no_rejects on/off; single vs --multiprocess under ScheduledPool with every completion order (<=24/120) for nla, '
+     'identity+reverse otherwise. Oracle: multiset of (name, mate, seq, qual, pos, CIGAR) equals the input primaries, coordinate sorted, usable '
+     '.bai, every record carries an RG declared in the header, --no_rejects removes exactly the invalid fragments; one free-running real-Pool '
+     'conformance run per layout class.',
+     'No secondary/supplementary alignments; reads are pre-tagged; samtools absent so the pysam merge/sort paths run; worker count is '
+     'observable only through the completion order.'),
 ]
 
 # id -> reason it is currently not claimed
